@@ -184,7 +184,7 @@ def oracle_diag(ctx):
     except Exception:
         pass
     fs += st.failures
-    return fs, dict(evaluations=len(fs) + 1, distinct=1, samples=[], clauses=['solution attribute changed by a diagnostic', 'result depends on the call history'])
+    return fs, dict(evaluations=len(fs) + 1 + st.evaluations, distinct=1 + len(st.distinct), samples=[], clauses=['solution attribute changed by a diagnostic', 'result depends on the call history'])
 
 
 def oracle_multi(*fns, orders=('r1', 'r2', 'r3'), shear=False, count=None):
